@@ -21,8 +21,8 @@ Extraction "model.ml"
   HeaderModel.cl_parse HeaderModel.cl_write HeaderModel.cc_write HeaderModel.cc_parse_top HeaderModel.host_parse HeaderModel.host_write HeaderModel.hdr_lookup HeaderModel.server_parse HeaderModel.server_write
   TransportModel.events TransportModel.issue TransportModel.on_ready TransportModel.drain_event
   WireModel.put_on_wire WireModel.render_stream WireModel.write_request WireModel.dechunk
-  LifecycleModel.lrun LifecycleModel.qrun LifecycleModel.q_stale
+  LifecycleModel.lrun LifecycleModel.qrun LifecycleModel.q_stale LifecycleModel.frun
   ClientModel.kstep ClientModel.kinit ClientModel.final ClientModel.hrun ClientModel.h_stuck
   DispatchModel.run DispatchModel.responses
   ShutdownModel.srun
-  HandlerModel.idle.
+  HandlerModel.idle HandlerModel.serve ParserInst.typed_other_inst ParserInst.set_cookie_inst.
